@@ -35,7 +35,7 @@ SAN_ENV = {
     "UBSAN_OPTIONS": "print_stacktrace=1:halt_on_error=0:exitcode=98",
     "MSAN_OPTIONS": "exitcode=97:halt_on_error=1",
     "TSAN_OPTIONS": "halt_on_error=0:exitcode=96:report_signal_unsafe=0:second_deadlock_stack=1",
-    "LSAN_OPTIONS": "exitcode=95",
+    "LSAN_OPTIONS": "exitcode=95:use_unaligned=1",   # probe_t is pack(2): its next pointer is unaligned
 }
 
 
